@@ -828,7 +828,7 @@ fn models(g: &mut SplitMix64, thorough: bool) -> Vec<Model> {
     let gammas = [0.5, 1.0, 2.0];
     let hs = [0.0, 0.0, 0.5, -1.0];
     let betas = [0.5, 1.0, 2.0, 4.0];
-    let reps = if thorough { 10 } else { 3 };
+    let reps = if thorough { 20 } else { 3 };
     for rep in 0..reps {
         // frustrated triangle, equal couplings
         v.push(Model { name: "triangle", nvars: 3, edges: vec![((0, 1), 1.0), ((1, 2), 1.0), ((0, 2), 1.0)], gamma: *g.pick(&gammas), h: 0.0, beta: *g.pick(&betas) });
